@@ -504,4 +504,18 @@ theorem inertiaFromGeom_single (g : GeomMI ℝ) (h : mjEPS < g.mass) :
     inertiaFromGeom [g] = .ok (some ⟨g.mass, g.pos, g.quat, g.inertia⟩) := by
   simp only [inertiaFromGeom, List.filter, h, decide_true]
 
+/-! ### further instances of the hypotheses -/
+
+-- `parallel_axis_steiner`: two unit masses at x = 0 and x = 2 have their centre of mass at (1, 0, 0)
+example :
+    let gs : List (GeomMI ℝ) := [⟨1, ⟨0, 0, 0⟩, ⟨1, 0, 0, 0⟩, ⟨1, 1, 1⟩⟩, ⟨1, ⟨2, 0, 0⟩, ⟨1, 0, 0, 0⟩, ⟨1, 1, 1⟩⟩]
+    totalMass gs * (1 : ℝ) = (firstMoment gs).x ∧ totalMass gs * (0 : ℝ) = (firstMoment gs).y := by
+  simp only [totalMass, firstMoment]; norm_num
+
+-- `mass_branch_eq_density_branch`: a unit box of mass 2
+example : geomVolume Real.pi .box false (⟨1, 1, 1⟩ : V3 ℝ) = some 8 ∧ (mjEPS : ℝ) < 8 ∧ (2 : ℝ) ≠ 0 := by
+  refine ⟨?_, ?_, by norm_num⟩
+  · simp only [geomVolume, L, real_ofInt]; norm_num
+  · rw [mjEPS_eq]; norm_num
+
 end MjProof.C35
